@@ -570,7 +570,7 @@ int main()
 		pid_t pid = fork();
 		if (pid == 0)
 		{
-			signal(SIGALRM, on_crash); alarm(10);      // a corrupted pool may loop forever: 10 s per case, then reported as CRASH signal=14
+			signal(SIGALRM, on_crash); alarm(5);       // a corrupted pool may loop forever: 5 s per case, then reported as CRASH signal=14
 			signal(SIGSEGV, on_crash); signal(SIGABRT, on_crash); signal(SIGBUS, on_crash); signal(SIGFPE, on_crash); signal(SIGILL, on_crash);
 			std::string r = run_case(line) + "\n";
 			ssize_t k = write(1, r.c_str(), r.size()); (void)k;
